@@ -92,6 +92,28 @@ func resolveType(pkg *types.Package, s string) (types.Type, error) {
 			return tn.Type(), nil
 		}
 	}
+	// generic instantiation  Name[T1,T2]
+	if strings.HasSuffix(s, "]") {
+		if i := strings.Index(s, "["); i > 0 {
+			base, err := resolveType(pkg, s[:i])
+			if err != nil {
+				return nil, err
+			}
+			var targs []types.Type
+			for _, a := range splitTop(s[i+1 : len(s)-1]) {
+				t, err := resolveType(pkg, strings.TrimSpace(a))
+				if err != nil {
+					return nil, err
+				}
+				targs = append(targs, t)
+			}
+			inst, err := types.Instantiate(nil, base, targs, false)
+			if err != nil {
+				return nil, fmt.Errorf("instantiate %s: %v", s, err)
+			}
+			return inst, nil
+		}
+	}
 	if i := strings.LastIndex(s, "."); i >= 0 {
 		pn, tn := s[:i], s[i+1:]
 		if p := findImport(pkg, pn); p != nil {
